@@ -106,6 +106,20 @@ PROPS = {
         design_ref="DESIGN.md section 4, C07",
         level_text="Date differences (Date::until/since, DateDifference::since_with_largest_unit) for every pair of dates and every largest unit: the result equals an explicit specification diff_spec, is reversible w.r.t. the C08 addition semantics, sign-consistent, has no unit above the largest and is balanced; panic-free. DateTime/Time/Timestamp/Zoned differences are NOT decided by this check yet (Zoned::until has the open finding F7).",
     ),
+    "C09": dict(
+        title="Datetimes print to RFC 3339/9557 text that parses back to the same value",
+        verus=[],
+        kani_quick=["c09_printer"], kani_thorough=[],
+        design_ref="DESIGN.md section 4, C09",
+        level_text="Narrow claim: the offset part of the Temporal printer on the real code, for every offset in -93599..=93599 s: print_offset_rounded emits sign HH:MM with MM <= 59 denoting |offset| rounded to the nearest minute, print_offset_full_precision emits the exact offset (loop-free up to the 2-digit writers, unwinding complete: full-domain proofs). The print->parse identity of whole datetimes, IANA-name lookup and serde are NOT decided (byte-string printers/parsers exceed CBMC at useful buffer sizes and are outside Verus' subset; DESIGN.md section 4, C09).",
+    ),
+    "C16": dict(
+        title="strftime/strptime and RFC 2822 agree with the calendar and invert each other",
+        verus=[],
+        kani_quick=["c16_strftime"], kani_thorough=[],
+        design_ref="DESIGN.md section 4, C16",
+        level_text="Calendar-fact part only: through the real Formatter methods into a fixed buffer, for ALL dates (Neri-Schneider callee replaced by its Verus-proved contract as axiomatised memo stub) %j, %U, %W, %u, %w print the value the C library defines with the documented padding, and %z / %:z print sign/HH/MM[/SS] of every offset (sign correct also below one hour). strptime inversion, multi-specifier formats, locale names and RFC 2822 are NOT decided.",
+    ),
 }
 
 NOT_APPLICABLE = {
